@@ -24,12 +24,13 @@ use std::time::{Duration, Instant};
 pub struct Workload {
     /// per thread: (op kind, jitter spins)
     /// kinds: 0 encaps+decaps, 1 decaps unauthorized, 2 pke round-trip, 3 header round-trip,
-    ///        4 keygen + use, 5 refresh + use, 6 pke unauthorized, 7 header with aad mismatch
+    ///        4 keygen + use, 5 refresh + use, 6 pke unauthorized, 7 header with aad mismatch,
+    ///        8 administration on the caller's master key: rekey + prune of rights nobody encrypts for
     pub threads: Vec<Vec<(u8, u16)>>,
 }
 
 fn strategy() -> impl Strategy<Value = Workload> {
-    proptest::collection::vec(proptest::collection::vec((0u8..8, prop_oneof![Just(0u16), 0u16..200, 0u16..5000]), 4..30), 2..=16).prop_map(|threads| Workload { threads })
+    proptest::collection::vec(proptest::collection::vec((0u8..9, prop_oneof![Just(0u16), 0u16..200, 0u16..5000]), 4..30), 2..=16).prop_map(|threads| Workload { threads })
 }
 
 pub struct Shared {
@@ -52,6 +53,7 @@ fn shared() -> Result<Shared, Fail> {
     msk.access_structure.add_anarchy("DPT".into()).map_err(e)?;
     msk.access_structure.add_attribute(qa("DPT", "FIN"), hint(false), None).map_err(e)?;
     msk.access_structure.add_attribute(qa("DPT", "HR"), hint(false), None).map_err(e)?;
+    msk.access_structure.add_attribute(qa("DPT", "ADM"), hint(false), None).map_err(e)?;
     let mpk = cc.update_msk(&mut msk).map_err(e)?;
     Ok(Shared { cc, msk: Mutex::new(msk), mpk, tags: Mutex::new(HashSet::new()), nonces: Mutex::new(HashSet::new()), progress: AtomicU64::new(0), failed: Mutex::new(None) })
 }
@@ -150,6 +152,14 @@ fn thread_body(sh: &Shared, t: usize, ops: &[(u8, u16)]) -> Result<(), Fail> {
                     Ok(Some(x)) if x == s => {}
                     _ => return Err(Fail::new("concurrent-result-differs:new-key", ctx("freshly generated key cannot open"))),
                 }
+            }
+            8 => {
+                // rotates {ADM} x SEC and the rights without DPT; no policy of this workload
+                // encrypts for them, so every other oracle is unaffected
+                let mut msk = sh.msk.lock().unwrap();
+                let adm = AccessPolicy::parse("DPT::ADM && SEC::LOW").unwrap();
+                cc.rekey(&mut msk, &adm).map_err(|e| Fail::new("concurrent-call-failed:rekey", format!("{}: {}", ctx("rekey"), short_err(&e))))?;
+                cc.prune_master_secret_key(&mut msk, &adm).map_err(|e| Fail::new("concurrent-call-failed:prune", format!("{}: {}", ctx("prune"), short_err(&e))))?;
             }
             _ => {
                 {
@@ -261,13 +271,13 @@ pub fn run(ctx: &Ctx, col: &Collector) -> Meta {
                 col.class_n("ops-executed", kinds.len() as u64);
                 col.class(&format!("threads:{}", if nthreads >= 8 { "8-16" } else if nthreads >= 4 { "4-7" } else { "2-3" }));
                 if nthreads >= 4 && sym >= 2 {
-                    let mut multiset = [0u32; 8];
+                    let mut multiset = [0u32; 9];
                     for k in &kinds {
                         multiset[*k as usize] += 1;
                     }
                     col.class("nontrivial-workloads");
                     if col.nontrivial(&(nthreads, multiset)) {
-                        col.sample(|| json!({"threads": nthreads, "ops_per_kind": multiset, "kinds": "0 encaps+decaps, 1 unauthorized decaps, 2 pke, 3 header, 4 keygen, 5 refresh, 6 pke unauthorized, 7 header wrong aad"}));
+                        col.sample(|| json!({"threads": nthreads, "ops_per_kind": multiset, "kinds": "0 encaps+decaps, 1 unauthorized decaps, 2 pke, 3 header, 4 keygen, 5 refresh, 6 pke unauthorized, 7 header wrong aad, 8 rekey+prune"}));
                     }
                 }
             }
@@ -299,7 +309,7 @@ pub fn run(ctx: &Ctx, col: &Collector) -> Meta {
     }
     Meta {
         level: "exploration",
-        rule: "generated workloads of 2-16 threads x 4-30 operations (encaps+decaps, unauthorized decaps, PKE encrypt/decrypt, header generate/decrypt with matching and wrong authentication data, key generation, refresh) with generated spin / yield jitter, all threads released by a barrier on one shared Covercrypt instance (master key behind the caller's own mutex, distinct key objects per thread); every result must equal the sequential oracle, tags and AEAD nonces must be distinct across threads, no call may panic (poisoned lock), and the workload must finish: no progress for 8 s with no CPU use is a deadlock. Non-trivial = workload with >= 4 threads and >= 2 PKE / header operations; distinct by (thread count, multiset of operation kinds)".into(),
+        rule: "generated workloads of 2-16 threads x 4-30 operations (encaps+decaps, unauthorized decaps, PKE encrypt/decrypt, header generate/decrypt with matching and wrong authentication data, key generation, refresh, rekey + prune on the caller's master key) with generated spin / yield jitter, all threads released by a barrier on one shared Covercrypt instance (master key behind the caller's own mutex, distinct key objects per thread); every result must equal the sequential oracle, tags and AEAD nonces must be distinct across threads, no call may panic (poisoned lock), and the workload must finish: no progress for 8 s with no CPU use is a deadlock. Non-trivial = workload with >= 4 threads and >= 2 PKE / header operations; distinct by (thread count, multiset of operation kinds)".into(),
         exhaustive: false,
         assumptions: vec!["schedules are sampled under the real OS scheduler (contention + jitter), not owned: a defect confined to one rare interleaving can be missed".into()],
     }
